@@ -23,9 +23,26 @@ Inputs on which the Go code would desynchronise or read a malformed length (left
 message size, negative sizes) are the domain of C17/C20; the model returns `err` for them.
 -/
 import KafkaVerif.Spec.RecordBatch
+import KafkaVerif.Gen.RecordConsts
 
 namespace KV.Model.RecordReader
 open KV KV.RW KV.Spec.RB
+
+/-- `Attributes.Compression()`: `a & mask` with the mask found in protocol/record.go NOW (Gen/RecordConsts,
+regenerated on every run); for a mask of the form 2^k - 1 this is `a mod (mask + 1)` on two's complement values -/
+def libCodecOf (a : Int) : Int := a % ((Gen.RecordConsts.compressionMask + 1 : Nat) : Int)
+
+/-- `Attributes.Control()`: `a & Control != 0` with the extracted `Control` constant (a power of two) -/
+def libIsControl (a : Int) : Bool := (a / (Gen.RecordConsts.controlConst : Int)) % 2 = 1
+
+/-- `attributes & <mask> != 0` for the masks the decoder tests NOW (Gen/RecordConsts: one mask, the timestamp type, since
+fix C05-D30; none before) -/
+def maskTest (masks : List Nat) (a : Int) : Bool := masks.any fun m => (a / (m : Int)) % 2 = 1
+
+/-- readFromVersion2: `Attributes(attributes)&logAppendTime != 0` → every record carries `maxTimestamp` -/
+def libLogAppendV2 (a : Int) : Bool := maskTest Gen.RecordConsts.stampMasksV2 a
+/-- readFromVersion1: the same test on the wrapper message's attributes -/
+def libLogAppendV1 (a : Int) : Bool := maskTest Gen.RecordConsts.stampMasksV1 a
 
 def libVarBytes (bs : Bytes) : Option (Option Bytes × Bytes) :=
   match readVarint bs with
@@ -124,13 +141,14 @@ def libReadV2 (crc : Bytes → Nat) (dec : Int → Bytes → Option Bytes) (bs :
                 match readFrameBody base epoch body with     -- attributes … numRecords, then the payload
                 | none => .err
                 | some f =>
-                  let payload := if codecOf f.attributes = 0 then some f.payload else dec (codecOf f.attributes) f.payload
+                  let payload := if libCodecOf f.attributes = 0 then some f.payload else dec (libCodecOf f.attributes) f.payload
                   match payload with
                   | none => .err                             -- unsupported codec / decompression failed
                   | some p =>
                     if crc body ≠ c then .err                -- "crc32 checksum mismatch"
-                    else if f.count < 0 then .err            -- make([]optimizedRecord, numRecords) panics
-                    else .ok (isControl f.attributes) (libRecords f.baseOffset f.firstTs f.count.toNat p) rest
+                    else if f.count < 0 ∨ f.count > (p.length : Int) then .err   -- "invalid record count" (fix e9a71f7)
+                    else .ok (libIsControl f.attributes)
+                      ((libRecords f.baseOffset f.firstTs f.count.toNat p).map (stamp (libLogAppendV2 f.attributes) f.maxTs)) rest
 
 /-- `readMessage`: returns attributes, the record and the rest -/
 def libReadMsg (crc : Bytes → Nat) (bs : Bytes) : Option (Int × Msg × Bytes) :=
@@ -171,19 +189,21 @@ def libReadV1 (crc : Bytes → Nat) (dec : Int → Bytes → Option Bytes) (bs :
   match libReadMsg crc bs with
   | none => .err
   | some (attrs, m, rest) =>
-    if codecOf attrs = 0 then .ok false [recOfMsg m] rest
+    if libCodecOf attrs = 0 then .ok false [recOfMsg m] rest
     else match m.value with
       | none => .ok false [] rest                            -- emptyRecordReader
       | some v =>
-        match dec (codecOf attrs) v with
+        match dec (libCodecOf attrs) v with
         | none => .err
         | some inner =>
           match libInner crc inner.length inner with
           | none => .err
           | some ms =>
+            -- `wrapperLogAppend := magicByte == 1 && attributes&logAppendTime != 0`: the wrapper's timestamp for all
+            let on := decide (m.magic = 1) && libLogAppendV1 attrs
             if m.offset ≠ 0 ∧ ms ≠ [] then
-              .ok false (ms.map fun x => { recOfMsg x with offset := m.offset - (lastOff ms - x.offset) }) rest
-            else .ok false (ms.map recOfMsg) rest
+              .ok false (ms.map fun x => stamp on m.ts { recOfMsg x with offset := m.offset - (lastOff ms - x.offset) }) rest
+            else .ok false (ms.map fun x => stamp on m.ts (recOfMsg x)) rest
 
 /-- `(*RecordSet).ReadFrom`: the decoded entries (control flag, records) up to the end or the first error -/
 def libReadSet (c : Crcs) (dec : Int → Bytes → Option Bytes) : Nat → Bytes → List (Bool × List Rec)
